@@ -29,7 +29,7 @@ const stallBound = 2 * time.Second
 var dumpStacks bool
 
 type scenario struct {
-	behaviour string // absent | blackhole | throttled | healthy | closing
+	behaviour string // absent | blackhole | throttled | healthy | closing | stutter | silent | readdress
 	rtype     string
 	connbuf   int
 	iobuf     int
@@ -60,6 +60,8 @@ type outcome struct {
 	backlog      bool // the endpoint demonstrably did not keep up (drops or unread data)
 	accountErr   string
 	incarnations int
+	skipped      bool   // the kernel does not give us a silent endpoint
+	adminState   string // readdress: what became of the admin request
 }
 
 var runSeq int
@@ -72,7 +74,20 @@ func run(sc scenario) outcome {
 	tab := h.NewTable(false)
 	var e *ep.Endpoint
 	addr := "127.0.0.1:1"
-	if sc.behaviour != "absent" {
+	// "silent": the address neither accepts nor refuses (SYNs are swallowed), so every dial to it hangs.
+	// "readdress": a healthy endpoint; in the middle of the traffic an admin request re-points the destination at a
+	// silent address (modDest addr=...), whose dial hangs for as long as the case lasts while the old connection stays up.
+	var sil *ep.Silent
+	if sc.behaviour == "silent" || sc.behaviour == "readdress" {
+		if sil = ep.NewSilent(); sil == nil {
+			out.skipped = true
+			return out
+		}
+		defer sil.Close()
+	}
+	if sc.behaviour == "silent" {
+		addr = sil.Addr
+	} else if sc.behaviour != "absent" {
 		e = ep.NewSmallBuf(16384)
 		addr = e.Addr
 	}
@@ -154,9 +169,17 @@ func run(sc scenario) outcome {
 	var maxLat, maxLatTicks int64
 	var canary int64
 	done := make(chan struct{})
+	var adminDone chan error
+	if sc.behaviour == "readdress" {
+		adminDone = make(chan error, 1)
+	}
 	go func() {
 		defer close(done)
 		for i := 0; i < n && atomic.LoadInt32(&abandon) == 0; i++ {
+			if adminDone != nil && i == n/4 {
+				go func() { adminDone <- tab.UpdateDestination(rkey, 0, map[string]string{"addr": sil.Addr + ":re"}) }()
+				time.Sleep(2 * time.Millisecond) // (let the request get as far as its dial)
+			}
 			name := fmt.Sprintf("c06.%d.%d.%s", myRun, i, pad)
 			line := []byte(name[:sc.lineLen-13] + " 1 1500000000")
 			c0 := atomic.LoadInt64(&canary)
@@ -239,7 +262,7 @@ func run(sc scenario) outcome {
 
 	// steady-state accounting
 	switch sc.behaviour {
-	case "absent":
+	case "absent", "silent":
 		if sc.spool {
 			// with spooling on an outage is C07's subject; here only the hand-off bound and the sibling route are checked
 			out.backlog = true
@@ -252,7 +275,7 @@ func run(sc scenario) outcome {
 		if int(out.connDown) != out.handed {
 			out.accountErr = fmt.Sprintf("endpoint down with spooling off: %d lines handed, connection-down drop counter moved by %d (slow_conn %d)", out.handed, out.connDown, out.slowConn)
 		}
-	case "healthy", "throttled", "stutter":
+	case "healthy", "throttled", "stutter", "readdress":
 		// completion by sentinel through the same route
 		deadline := time.Now().Add(60 * time.Second)
 		sent := 0
@@ -340,6 +363,21 @@ func run(sc scenario) outcome {
 		e.CloseAfter = 0
 		time.Sleep(5 * time.Millisecond)
 	}
+	if adminDone != nil {
+		// the request's dial ends (refused) at its next SYN retransmission once the silent socket is closed
+		select {
+		case err := <-adminDone:
+			out.adminState = fmt.Sprintf("returned before the silent address was closed (err=%v)", err)
+		default:
+			sil.Close()
+			select {
+			case err := <-adminDone:
+				out.adminState = fmt.Sprintf("returned once the silent address refused (err=%v)", err)
+			case <-time.After(40 * time.Second):
+				out.adminState = "still hanging 40 s after the silent address was closed"
+			}
+		}
+	}
 	sd := make(chan struct{})
 	go func() { rt.Shutdown(); close(sd) }()
 	select {
@@ -386,6 +424,58 @@ func TestPropStutteringEndpoint(t *testing.T) {
 			t.Fatalf("%s (pause %s): %s", sc, sc.stutter, o.accountErr)
 		}
 		rec.Case(sc.String()+" pause="+sc.stutter.String(), o.backlog, "rtype="+sc.rtype, fmt.Sprintf("drops>0=%v", o.slowConn > 0))
+		rec.Num("lines_handed", int64(o.handed))
+	})
+}
+
+// TestPropSilentEndpoint: an endpoint that neither accepts nor refuses.  (a) "silent": the destination's address swallows
+// SYNs from the start, so its dial hangs for the whole case; with spooling off that is the statement's "down" steady state
+// (every line counted as connection-down).  (b) "readdress": the endpoint is healthy, and in the middle of the traffic an
+// admin request re-points the destination at a silent address; the request hangs in its dial while the old connection
+// stays up, so hand-offs must stay bounded, the sibling route unaffected and #handed = #received + slow_conn.
+func TestPropSilentEndpoint(t *testing.T) {
+	rec := ev.Get("silent_endpoint")
+	rapid.Check(t, func(t *rapid.T) {
+		sc := scenario{
+			behaviour: rapid.SampledFrom([]string{"silent", "readdress", "readdress"}).Draw(t, "behaviour"),
+			rtype:     rapid.SampledFrom([]string{"sendAllMatch", "sendFirstMatch", "consistentHashing"}).Draw(t, "rtype"),
+			connbuf:   rapid.SampledFrom([]int{0, 10, 1000}).Draw(t, "connbuf"),
+			iobuf:     rapid.SampledFrom([]int{256, 4096, 65536}).Draw(t, "iobuf"),
+			flush:     time.Duration(rapid.SampledFrom([]int{1, 10, 100}).Draw(t, "flushMs")) * time.Millisecond,
+			volume:    rapid.SampledFrom([]int{1, 2, 4}).Draw(t, "volumeMB") << 20,
+			lineLen:   rapid.SampledFrom([]int{30, 70, 200}).Draw(t, "linelen"),
+			spool:     rapid.IntRange(0, 3).Draw(t, "spool") == 0,
+		}
+		if sc.behaviour == "readdress" {
+			sc.spool = false
+		}
+		o := run(sc)
+		if o.skipped {
+			rec.Class("inconclusive:no-silent-endpoint-on-this-kernel", 1)
+			t.Skip("no silent endpoint")
+		}
+		if o.starved {
+			rec.Class("inconclusive:machine-starved", 1)
+			t.Skip("machine starved")
+		}
+		if o.stalled {
+			o2 := run(sc)
+			if o2.starved || o2.skipped {
+				rec.Class("inconclusive:machine-starved", 1)
+				t.Skip("machine starved during the confirmation run")
+			}
+			if o2.stalled {
+				t.Fatalf("ingestion stalled: handing a metric to the table did not return within %s (twice) with endpoint %s; first run stalled after %d lines (max latency %s), second after %d\nrelay goroutines at the second stall:\n%s", stallBound, sc, o.stallAt, o.maxLatency, o2.stallAt, o2.stacks)
+			}
+			o = o2
+		}
+		if o.capGot != o.handed {
+			t.Fatalf("the healthy sibling route received %d of %d metrics while the other route's endpoint was %s", o.capGot, o.handed, sc)
+		}
+		if o.accountErr != "" {
+			t.Fatalf("%s: %s", sc, o.accountErr)
+		}
+		rec.Case(sc.String(), o.backlog || sc.behaviour == "readdress", "behaviour="+sc.behaviour, "rtype="+sc.rtype, fmt.Sprintf("spool=%v", sc.spool), "admin-request="+strings.SplitN(o.adminState, " (", 2)[0])
 		rec.Num("lines_handed", int64(o.handed))
 	})
 }
